@@ -25,6 +25,7 @@ type c09Spec struct {
 	Topology  string   `json:"operator_topology"` // keep move_master two_masters no_master
 	Leave     bool     `json:"leave"`
 	FailMW    bool     `json:"first_write_of_the_master_key_on_leaving_fails"`
+	ByDelete  bool     `json:"maintenance_key_deleted_by_hand"` // instead of mysync maint off
 	EnterRace string   `json:"enter_race"` // none switch_pending master_dead
 }
 
@@ -43,6 +44,15 @@ func c09Gen(seed int64, idx int) c09Spec {
 	sp.Topology = []string{"keep", "keep", "move_master", "two_masters", "no_master"}[r.Intn(5)]
 	sp.FailMW = sp.Leave && sp.Topology == "move_master" && r.Intn(2) == 0
 	sp.EnterRace = []string{"none", "none", "switch_pending", "master_dead"}[r.Intn(4)]
+	if sp.Mode == "full" && idx%8 == 5 {
+		// the operator leaves two masters (or none) behind and ends maintenance by deleting the key: leaving fails, and the
+		// cluster has to stay frozen
+		sp.Events, sp.EnterRace, sp.Leave, sp.ByDelete, sp.FailMW = nil, "none", true, true, false
+		sp.Topology = []string{"two_masters", "no_master"}[(idx/8)%2]
+		if sp.N < 3 {
+			sp.N = 3
+		}
+	}
 	if sp.Mode == "full" && idx%8 == 2 {
 		// the operator stops replication on a replica, then everybody loses the coordination service for longer than
 		// the session timeout: the master's daemon must stay in maintenance, not fence a master without a live group
@@ -120,6 +130,13 @@ func newC09Monitor(sc *Scen, mode string) *c09Monitor {
 				}
 			case "delete":
 				m.judgeLeave(s.W, r.Client, daemon)
+				if !daemon && m.acked && len(mastersAlive(s.W, s.AllHosts())) != 1 {
+					// the key removed by hand while the cluster has no / several masters: leaving cannot succeed, "the mode is
+					// kept" - the freeze goes on although the key is gone
+					m.sc.Cover("maintenance-key-deleted-by-hand-with-wrong-topology")
+					m.lightAcked, m.shouldLeave = false, false
+					return
+				}
 				m.acked, m.lightAcked, m.shouldLeave = false, false, false
 			}
 		case "master", "active_nodes":
@@ -446,7 +463,14 @@ func c09Run(u *Unit) {
 			}
 			time.Sleep(30 * time.Second)
 		}
-		if sp.Leave {
+		if sp.Leave && sp.ByDelete {
+			s.ZK.Remove("operator", NS+"/maintenance")
+			time.Sleep(60 * time.Second) // the monitor keeps judging every daemon statement and list / master write
+			s.W.Lock()
+			ms := mastersAlive(s.W, s.AllHosts())
+			s.W.Unlock()
+			sc.Cover(fmt.Sprintf("kept-with-%d-masters", min(len(ms), 2)))
+		} else if sp.Leave {
 			failArmed.Store(true)
 			v, _ := s.Cached("maintenance")
 			var mt map[string]any
